@@ -36,7 +36,7 @@ fn run_encode(size: u8, flags: u8, value: u64) -> ([u8; 12], usize) {
     (arr, written)
 }
 
-// vp: props=C15; tag=C15.int.spec.roundtrip; kind=complete; tier=quick
+// vp: props=C15; tag=C15.int.spec.roundtrip; kind=complete; tier=thorough
 // the two spec functions are inverse on all of u64 for every prefix size (sanity of the oracle itself)
 #[kani::proof]
 #[kani::unwind(13)]
